@@ -238,8 +238,28 @@ func (e *executor) processInput(workflow *Workflow) (schema.Scope, error) {
 		return nil, &ErrInvalidWorkflow{fmt.Errorf(
 			"invalid workflow input section (root object '%s' is not among the objects)", typedInput.Root())}
 	}
+	// Validate the defaults on a throw-away copy, because decoded defaults are cached in the scope.
+	if scopeCopy, err := schema.DescribeScope().Unserialize(workflow.Input); err == nil {
+		if err := validateDefaults(scopeCopy.(schema.Scope)); err != nil {
+			return nil, &ErrInvalidWorkflow{fmt.Errorf("invalid workflow input section (%w)", err)}
+		}
+	}
 	typedInput.ApplySelf()
 	return typedInput, nil
+}
+
+// validateDefaults makes sure the default values declared in the scope can be decoded. The
+// schema library panics on a malformed default only when the first input is unserialized.
+func validateDefaults(scope schema.Scope) (err error) {
+	defer func() {
+		if r := recover(); r != nil {
+			err = fmt.Errorf("%v", r)
+		}
+	}()
+	for _, object := range scope.Objects() {
+		object.GetDefaults()
+	}
+	return nil
 }
 
 func (e *executor) processSteps(
